@@ -136,15 +136,26 @@ SPEC = dict(
          "rejecting inputs (one-ulp perturbations, values around the 0.01 tolerance, wildcard-only sequences with and "
          "without `unknown`). corpus/C09: 35 fixed lines (one per ragged shape, per special base, subnormal rescale, "
          "striped backgrounds). All floats as u32 bit patterns. PROPFAIL: extracted checkers (counts = occurrences / Err on "
-         "unequal lengths; frequency within 1e-5 of (count+pseudo)/total and rows summing to 1; weight*background within 1e-6 "
-         "of the frequency, 0 where the background is 0; score within 1e-5 of log_base(weight) from the libm oracle, -inf "
-         "where the background is 0 (finite base > 1); one-step = two-step; rescaled weight * new background within "
+         "unequal lengths; frequency cells finite, within 1e-5 of (count+pseudo)/exact total, rows summing to 1 within K*1e-5 "
+         "(check_freq2, sound: C09_freq_checker_sound; whether a row is judged is a function of the INPUT only - rows whose "
+         "pseudocounts are negative / NaN / infinite or whose exact total is 0 or above 2^100 are not judged: counted, "
+         "C09_freq_row_skip_reasons; a non-finite observed cell on a judged row is a failure); weight*background within 1e-6 "
+         "of the frequency, 0 where the background is 0; every observed score cell of s2 / s1 / sb within 2^-20 relative of "
+         "the REAL logarithm ln w / ln base of the observed weight cell, decided by the extracted interval-arithmetic checker "
+         "check_score_cell_real_pre (coq-interval, coq/pwm/PwmLog.v; sound: C09_score_cell_real_sound; no oracle in this "
+         "verdict; -inf where the background is 0 for a finite base > 1; bases that are NaN, infinite, <= 0 or 1 have no "
+         "logarithm function and are judged only against the oracle value by check_score_cell2, 1e-5 - a NaN score against "
+         "a non-NaN expected value is a failure); one-step = two-step bit for bit (check_one_step_two_step); rescaled "
+         "weight * new background within "
          "rescale_tol = 1e-5|f| + (|f|/old)*new*2^-149 + 2^-60 of the frequency (proved to dominate the binary32 error of the "
          "three operations incl. gradual underflow: C09_rescale_model_passes_check); background from counts/sequences = "
          "occurrences/total within 1e-6, Err iff total 0; min_score <= window <= max_score exactly for wildcard-free windows; "
          "invalid backgrounds / frequency matrices rejected). DIFF: bit-exact comparison with the extracted binary32 model "
-         "(through the oracle table after the logarithm; the table is re-validated: log 0 = -inf, monotone, b^y = x within "
-         "1e-4). kind=stat (15 %): CountMatrix::entropy / consensus, Correlation::{dot, norm, auto_correlation, "
+         "(through the oracle table after the logarithm; every entry of the log2 / log10 / ln tables is validated by the "
+         "extracted log_pair_ok (within 2^-20 relative of the real logarithm; log 0 = -inf, negative / NaN -> NaN, +inf -> "
+         "+inf) and the tables are monotone (extracted check_log_mono on the list sorted by the driver; the checker "
+         "re-checks the order); sound: C09_log_checkers_sound; a failure is DIFF oracle-not-logarithm / oracle-not-monotone; "
+         "the 2^x table as before: OCaml double-precision pow, 1e-4, hand-written). kind=stat (15 %): CountMatrix::entropy / consensus, Correlation::{dot, norm, auto_correlation, "
          "cross_correlation} on count, frequency, weight, scoring (also arbitrary cells) and discrete matrices, "
          "WeightMatrix::information_content, ScoringMatrix::information_content, WeightMatrix::from(ScoringMatrix), on rows "
          "built for the edge cases (all-zero, single symbol, two equal counts, all equal, wildcard-dominant, counts 2^24+1 ... "
@@ -161,24 +172,57 @@ SPEC = dict(
          "From<ScoringMatrix>. DIFF: every observation bit-exact against the extracted binary32 model (sqrt = Flocq Bsqrt; "
          "log2 and 2^x through the oracle tables ELi/ELo, WLi/WLo, L2, P2, re-validated). The statement skeletons of the "
          "functions modelled in PwmStat.v are regenerated from pwm/mod.rs on every run (translate/pwm_skel.py -> "
-         "GenPwmSkel.v) and compared with the pinned PwmSkel.v by C09_source_skeleton. Theorems: coq/pwm/C09.v (40) and "
-         "coq/pwm/C09Stat.v (26, four of them inside a Section). Non-trivial: distinct non-empty inputs per kind.",
+         "GenPwmSkel.v) and compared with the pinned PwmSkel.v by C09_source_skeleton. Comparisons that a checker cannot make "
+         "are named by extracted *_skipped functions (PwmCheck2.v), counted per case and printed behind the verdict (`OK "
+         "skipped=<what>:<n>`; the runner ignores the detail): frequency rows outside the judged domain, non-finite weight / "
+         "rescale cells, zero old background in rescale, NaN oracle values, bases without logarithm, NaN min/max/window, "
+         "windows whose min/max panicked, bgcnt totals beyond usize, the guards of the stat checks (2^score only for finite "
+         "non-negative weights; correlation range only for frequency cells in [0,1]); the histogram also counts the inputs "
+         "whose frequency clause is not judged. corpus/C09/wave3.txt: 8 lines (negative / NaN / f32::MAX pseudocounts, "
+         "zero-total rows, bases 0.5, 0.1, 2+ulp, 10, e, protein). Theorems: coq/pwm/C09.v (40), coq/pwm/C09Stat.v (26, "
+         "four of them inside a Section) and coq/pwm/C09Log.v (14: logarithm clause, checker soundness, frequency "
+         "finiteness); 80 in total. Non-trivial: distinct non-empty inputs per kind.",
     trusted_base=[
-        "Coq 8.16.1 kernel (coqc); Flocq 4.1.0 (binary32 semantics); vm_compute only in Example lemmas and on closed "
-        "powers of two; the binary32 theorems use the classical axioms of Coq's Reals (allow-listed)",
-        "extraction: ExtrOcamlBasic only (nat, N, Z, positive, Q kept as extracted inductives); OCaml 4.13.1",
+        "Coq 8.16.1 kernel (coqc); Flocq 4.1.0 (binary32 semantics); vm_compute only in Example lemmas (incl. the kernel "
+        "runs of the interval checker in C09_example_log_checker) and on closed powers of two / closed constants; no "
+        "native_compute",
+        "coq-interval 4.6.1 (Interval.Float.Specific_ops with StdZRadix2, Interval.Interval.Float_full: I.ln, I.div, "
+        "I.subset on Z mantissas at 32 bits and their correctness theorems I.ln_correct, I.div_correct, I.subset_correct) - "
+        "part of the proof base like Flocq; no primitive floats, no OCaml floats in the logarithm verdict",
+        "extraction: ExtrOcamlBasic only (its Extract Inductive directives for bool, option, list, prod, unit, sumbool, "
+        "sumor); no other Extract Inductive (nat, N, Z, positive, Q kept as extracted inductives); OCaml 4.13.1. The ONE "
+        "Extract Constant of the whole development is in coq/pwm/Extract.v: ClassicalDedekindReals.sig_forall_dec is "
+        "realised as a function that raises (\"real-number computation reached\") because the verified interval-arithmetic "
+        "checker (Interval library, used by coq/pwm/PwmLog.v) mentions this Reals axiom in dead code (module extraction "
+        "drags the R-side fields); the executable checkers never call it - a call would abort the driver (reported as "
+        "DIFF), it can never decide a verdict",
         "translator translate/pwm_complement.py (alphabet sizes, symbol order, default symbol from abc.rs)",
         "translator translate/pwm_skel.py (token-level statement skeletons of matrix_traits! num_rows / dot, Correlation::{norm, "
         "auto_correlation, cross_correlation}, CountMatrix::{new, row_entropy, entropy, consensus}, both information_content, "
         "From<ScoringMatrix> for WeightMatrix and five literals of pwm/mod.rs -> coq/pwm/GenPwmSkel.v; fires on any token-level "
         "edit of these bodies, also a semantically equal one; the pinned copy PwmSkel.v is re-pinned only together with a review "
         "of PwmStat.v)",
-        "hand-written OCaml driver ocaml/pwm/driver.ml (parsing, oracle table and its validation with OCaml's "
-        "double-precision pow, tolerances, comparison)",
+        "hand-written OCaml driver ocaml/pwm/driver.ml: parsing; tolerances; the iteration over rows / cells / positions "
+        "around the extracted per-cell checkers and the conjunction of their verdicts (e.g. check_score_cell2 and "
+        "check_score_cell_real_pre); memo tables of the pure extracted functions ln_iv_f32, base_iv, log_pair_ok_k_pre, "
+        "check_score_cell_real_pre keyed by bit patterns; the hash table that implements tab_lookup for the model replay "
+        "(first entry per bit pattern, inconsistent duplicates = DIFF); sorting of the table before check_log_mono; the "
+        "counting and printing of the skipped comparisons; the 2^x table (kind 3) is validated by hand-written "
+        "double-precision code (DIFF path only)",
+        "PROPFAIL decisions of ocaml/pwm/driver.ml that are NOT an extracted checker: panics of calls that must not panic "
+        "(unexpected-panic ..., count-matrix-panic); shape mismatches of observed matrices (s2-shape, s1-shape, sb-shape, "
+        "pow2-of-score-shape); the guards of the stat checks (2^score only for finite non-negative weights, correlation "
+        "range only for frequency cells in [0,1]; counted); "
+        "background unchanged by From<ScoringMatrix> (extracted row_same, the `if` is OCaml). Every other PROPFAIL is the "
+        "verdict of one extracted checker applied by that iteration",
         "Rust harness harness/src/bin/pwm.rs (calls f32::log2/log10/ln on the observed weight cells to produce the "
-        "oracle table, stripes sequences with the generic pipeline, catch_unwind)",
+        "oracle table - the table feeds only the bit-exact model replay and the check_score_cell2 comparison for bases "
+        "without logarithm, not the real-logarithm verdict; stripes sequences with the generic pipeline, catch_unwind)",
         "modelled, not verified: pwm/mod.rs and the Background/Pseudocounts parts of abc.rs (hand-written Gallina model "
-        "tied by the bit-exact correspondence check); libm log2f/log10f/logf (oracle table); Iterator::sum::<f32>() "
+        "tied by the bit-exact correspondence check); libm log2f/log10f/logf (oracle table, every entry validated against "
+        "the real logarithm by the extracted log_pair_ok; that libm stays within 2^-20 relative for ALL binary32 arguments "
+        "is sampled, not proved: <= 1 ulp log2f/logf, <= 2 ulp log10f, three roundings for ln w / ln base); "
+        "Iterator::sum::<f32>() "
         "starting from -0.0 (observed on rustc 1.95); the padding of a striped sequence being the wildcard (C04)",
         "Flocq's Bsqrt mode_NE as the semantics of f32::sqrt (sqrtss, correctly rounded)",
         "libm powf (2f32.powf) through an oracle table validated against OCaml's double-precision 2.0 ** x (1e-4), monotone, "
@@ -189,19 +233,36 @@ SPEC = dict(
         "panicking or wrapping integer sums of the model",
     ],
     assumptions=[
-        "logarithms are Section variables flog2/flog10/fln; one_step_eq_two_step needs flog2 0.0 = -inf (re-validated on "
-        "every run from the oracle table) and 2.0 == 2.0",
+        "the model's logarithms are parameters flog2/flog10/fln; C09_score_is_logarithm assumes they are logarithms "
+        "(is_log_of: within 2^-20 relative of the real log2 / log10 / ln, IEEE conventions at 0, negative numbers, NaN, +inf) "
+        "on the arguments that occur - this is re-validated on every run for every argument of the oracle table by the "
+        "extracted, sound log_pair_ok, and C09_score_is_logarithm_table is the closed statement for the table-sampled "
+        "functions (tab_lookup of tables accepted by check_log_table); one_step_eq_two_step needs flog2 0.0 = -inf, which is "
+        "derived from the validated table (C09_neg_inf_at_zero_validated), and 2.0 == 2.0; that libm meets 2^-20 for ALL "
+        "binary32 arguments is not proved (sampled)",
         "value theorems freq_cell, freq_rows_sum_to_one, rescale_spec, acceptance-in-exact-arithmetic are over exact "
         "rationals Qc; for weights and rescaled weights the distance between the binary32 result and the exact value IS "
         "proved (C09_weight_f32_error, C09_rescale_f32_error: standard model with gradual underflow, hypotheses: finite "
         "operands, background entries > 0, no overflow of x = f/old, q = old/new, w = x*q), and so is the distance of a "
         "frequency row's real sum from one (C09_freq_rows_sum_to_one_f32: <= 1/(1-u)^K - 1 + K*eta <= 2^-19, for "
         "nonnegative finite count+pseudocount cells with a finite positive total) and of every frequency cell from "
-        "(count+pseudocount)/exact total (C09_freq_cell_f32: relative 1/(1-u)^(K+5) - 1 plus eta; "
-        "C09_freq_row_model_passes_check: the model passes check_freq_row with eps = 1e-5 for K <= 21, u32 counts, finite "
-        "nonnegative pseudocounts); only for scores (libm logarithms, oracle table) nothing is proved about the distance",
+        "(count+pseudocount)/exact total (C09_freq_cell_f32: relative 1/(1-u)^(K+5) - 1 plus eta); the finiteness "
+        "hypotheses on the OUTPUT row of these two theorems are discharged (C09_freq_finite_f32: every cell is finite, the "
+        "binary32 total is finite for an exact total <= 2^100 and K <= 21), and C09_freq_row_model_passes_check2 (the model "
+        "passes check_freq_row2 with eps = 1e-5 for every row of <= 21 u32 counts) has no hypothesis on the pseudocounts: "
+        "rows outside the judged domain pass by definition, judged rows by the error bounds; for scores the distance from "
+        "the real logarithm is CHECKED on every observed cell by a sound checker (2^-20 relative), and proved for the "
+        "general-base quotient given validated natural logarithms (C09_score_general_base_error: 2^-18 relative + 2^-150, "
+        "any finite base > 0 other than 1, standard model of the binary32 division)",
         "C09_*_model_passes_check additionally assume background entries <= 1 (guaranteed by Background::new / from_counts)",
-        "freq_cell / freq_rows_sum_to_one exclude rows whose total count+pseudocount is 0 (0/0 = NaN in the code)",
+        "C09_freq_cell_nonzero_total states the frequency clause (rows sum to one, every cell = (count+pseudo)/total) under "
+        "the explicit hypothesis total <> 0; C09_freq_cell itself also holds at total 0 only because x/0 = 0 in Qc; at total "
+        "0 (all counts 0, all pseudocounts +-0.0) the code gives NaN in every cell (C09_freq_zero_total_is_nan_f32)",
+        "frequency rows whose pseudocounts are negative / NaN / infinite or whose exact total is 0 or above 2^100 are outside "
+        "the frequency clause's judged domain (freq_row_skip_reason, a function of the input only): tied bit-exactly to the "
+        "model only, counted in the verdict line and in the histogram",
+        "score cells for bases that are NaN, infinite, <= 0 or 1 are judged only against the libm oracle value "
+        "(check_score_cell2, 1e-5), not against a real logarithm (there is none)",
         "window_between_min_max is proved for ordered commutative monoids (Qc and Qc + -inf) and, for binary32 "
         "(C09_window_between_min_max_f32, Flocq), exactly, for the bounds whose two values are not NaN",
         "fewer than 2^32 sequences and counts whose sum fits in usize (no integer overflow in from_sequences / from_counts)",
